@@ -1,5 +1,5 @@
 (* C11 - property theorems (reusing saved module results). *)
-From ASV.C11 Require Import Model Proofs.
+From ASV.C11 Require Import Model Proofs Proofs2 Proofs3 ModelRule ProofsRule.
 From Coq Require Import String.
 Close Scope string_scope.
 Open Scope Z_scope.
@@ -186,6 +186,115 @@ Theorem C11_side_subregion_valid : forall origin j a, sub_from_json origin j = O
 Proof. exact sub_from_json_valid. Qed.
 Print Assumptions C11_side_subregion_valid.
 
+(* ---- value-level codecs, second part ---- *)
+(* SideloadedResults: results valid for a record (every annotation carries the record's circular
+   origin - None on a linear record - and satisfies its constructor's conditions for that topology;
+   tool names valid) are regenerated identically, incl. circular_origin, whether or not an area or
+   its core crosses the origin *)
+Theorem C11_codec_Sideloaded : forall cur rid origin r, side_validb rid origin r = true ->
+  side_from_json cur rid origin (side_to_json cur r) = Ok r.
+Proof. exact side_codec. Qed.
+Print Assumptions C11_codec_Sideloaded.
+
+(* whatever JSON SideloadedResults.from_json accepts gives results valid for the record, ... *)
+Theorem C11_side_from_json_valid : forall cur rid origin j r,
+  side_from_json cur rid origin j = Ok r -> side_validb rid origin r = true.
+Proof. exact side_from_json_valid. Qed.
+Print Assumptions C11_side_from_json_valid.
+
+(* ... so from the first regeneration on, save/regenerate is a fixed point, ... *)
+Theorem C11_side_cycle_fixed_point : forall cur rid origin j r,
+  side_from_json cur rid origin j = Ok r -> side_from_json cur rid origin (side_to_json cur r) = Ok r.
+Proof. exact side_cycle_fixed. Qed.
+Print Assumptions C11_side_cycle_fixed_point.
+
+(* ... and every regenerated annotation carries the origin of the record it is loaded against
+   (the decidable form of this is the harness' "saved form" specification, fn 16) *)
+Theorem C11_side_origin_kept : forall cur rid origin j r,
+  side_from_json cur rid origin j = Ok r ->
+  Forall (fun a => sa_origin a = origin) (sd_subs r) /\ Forall (fun a => pa_origin a = origin) (sd_protos r).
+Proof. exact side_origin_kept. Qed.
+Print Assumptions C11_side_origin_kept.
+
+(* Module: a module value whose slot state reloads identically in the C14 model is regenerated
+   identically from its saved components *)
+Theorem C11_codec_Module : forall cm, cmodule_wf cm -> module_from_json (module_to_json cm) = Ok cm.
+Proof. exact module_codec. Qed.
+Print Assumptions C11_codec_Module.
+
+Theorem C11_codec_CDSResult : forall r, cdsresult_wf r -> cdsresult_from_json (cdsresult_to_json r) = Ok r.
+Proof. exact cdsresult_codec. Qed.
+Print Assumptions C11_codec_CDSResult.
+
+(* NRPSPKSDomains: results over genes of the record (distinct names), each a well-formed CDSResult,
+   are regenerated identically under the same schema version and record id *)
+Theorem C11_codec_NRPSPKS : forall cur rid names rs, nrps_wf names rs ->
+  nrps_from_json cur rid names (nrps_to_json cur rid rs) = Ok (Some rs).
+Proof. exact nrps_codec. Qed.
+Print Assumptions C11_codec_NRPSPKS.
+
+(* every module build_modules_for_cds builds for a gene (through C14_reload) is well-formed ... *)
+Theorem C11_nrps_built_modules_wf : forall locus doms mods, forallb hvalidb doms = true ->
+  nrps_build_cds locus doms = Ok mods -> Forall cmodule_wf mods.
+Proof. exact nrps_build_cds_wf. Qed.
+Print Assumptions C11_nrps_built_modules_wf.
+
+(* ... as is every module after combine_modules over two adjacent genes, the merged one included
+   (through C14_combine_total) ... *)
+Theorem C11_nrps_combined_modules_wf : forall tp tc same p c om p' c',
+  Forall comp_wf (tp ++ tc) -> NoDup (ids_of (tp ++ tc)) ->
+  C14.Model.build_modules_for_cds (map co_c14 tp) = Ok p ->
+  C14.Model.build_modules_for_cds (map co_c14 tc) = Ok c ->
+  C14.Model.combine_modules same c p = Ok (om, p', c') ->
+  Forall (fun m => cmodule_wf (canon_module (tp ++ tc) m)) (p' ++ c').
+Proof. exact nrps_combined_wf. Qed.
+Print Assumptions C11_nrps_combined_modules_wf.
+
+(* ... hence: the results generate_domains builds gene by gene (domains, motifs, modules of more
+   than one component), saved and regenerated against the same record, come back identical *)
+Theorem C11_codec_NRPSPKS_generated : forall cur rid names (genes : list (list Z * (list hmm * list hmm))) rs,
+  NoDup (map fst genes) ->
+  Forall (fun g => existsb (seqb (fst g)) names = true /\ forallb hvalidb (fst (snd g)) = true /\
+                   forallb hvalidb (snd (snd g)) = true) genes ->
+  mapR (fun g : list Z * (list hmm * list hmm) =>
+          do r <- nrps_cds_result (fst g) (fst (snd g)) (snd (snd g)); Ok (fst g, r)) genes = Ok rs ->
+  nrps_from_json cur rid names (nrps_to_json cur rid rs) = Ok (Some rs).
+Proof. exact nrps_generated_codec. Qed.
+Print Assumptions C11_codec_NRPSPKS_generated.
+
+(* RuleDetectionResults (the payload of HMMDetectionResults): protoclusters saved as features
+   (location and core_location as text, cutoff / neighbourhood as decimal text, qualifiers sorted by
+   key), CDSResults with their domains and the definition_domains sets saved sorted.  Every
+   well-formed value is regenerated identically except that the run-specific protocluster_number and
+   contig_edge are dropped (rdr_strip; add_to_record recomputes them) *)
+Theorem C11_codec_RuleDetectionResults : forall cur names r, rdr_wf names r = true ->
+  rdr_from_json cur names (rdr_to_json cur r) = Ok (Some (rdr_strip r)).
+Proof. exact rdr_codec. Qed.
+Print Assumptions C11_codec_RuleDetectionResults.
+
+Theorem C11_rule_results_strip_id : forall r,
+  Forall (fun p => pc_inrec (fst p) = None) (rd_by r) -> rdr_strip r = r.
+Proof. exact rdr_strip_id. Qed.
+Print Assumptions C11_rule_results_strip_id.
+
+(* repeated cycles: the regenerated value is a fixed point of save/regenerate *)
+Theorem C11_rule_results_cycle_fixed_point : forall cur names r, rdr_wf names r = true ->
+  rdr_from_json cur names (rdr_to_json cur (rdr_strip r)) = Ok (Some (rdr_strip r)).
+Proof. exact rdr_codec_stable. Qed.
+Print Assumptions C11_rule_results_cycle_fixed_point.
+
+(* saved before the protoclusters are in a record: the same JSON value comes back *)
+Theorem C11_rule_results_json_identical : forall cur names r, rdr_wf names r = true ->
+  Forall (fun p => pc_inrec (fst p) = None) (rd_by r) ->
+  omap (rdr_to_json cur) (rdr_from_json cur names (rdr_to_json cur r)) = Ok (Some (rdr_to_json cur r)).
+Proof. exact rdr_roundtrip_json. Qed.
+Print Assumptions C11_rule_results_json_identical.
+
+(* the set-valued definition_domains: a strictly ascending name list is its own sorted set *)
+Theorem C11_rule_results_sorted_sets : forall l, sasc l = true -> ssort l = l.
+Proof. exact ssort_sasc. Qed.
+Print Assumptions C11_rule_results_sorted_sets.
+
 (* ---- non-vacuity ---- *)
 Definition ex_hmm : hmm :=
   HMM (zs "PKS_KS"%string) 10 200 (1, 1024) (1234, 10)
@@ -260,3 +369,36 @@ Example C11_ex_side :
     (JObj [(K_start, JInt 900); (K_end, JInt 100); (K_label, JStr (zs "l"%string));
            (K_tool, JObj [(K_name, JStr (zs "tool"%string)); (K_version, JStr (zs "1"%string))])]) = Err E_Value.
 Proof. eexists. split; vm_compute; reflexivity. Qed.
+
+(* sideloaded: a protocluster whose core does not cross the origin but whose neighbourhood does,
+   on a circular record of 1000 nt: regenerated with circular_origin 1000 *)
+Definition ex_tool : tool := mkTool (zs "tool"%string) (zs "1"%string) [] [].
+Definition ex_side : sideres :=
+  mkSide (JStr (zs "rec"%string))
+         [mkSub (Some 1000) 900 100 (zs "l"%string) ex_tool []]
+         [mkProto (Some 1000) 800 900 (zs "T1PKS"%string) ex_tool [] 0 200].
+Example C11_ex_side_codec :
+  side_validb (zs "rec"%string) (Some 1000) ex_side = true /\
+  side_from_json 1 (zs "rec"%string) (Some 1000) (side_to_json 1 ex_side) = Ok ex_side /\
+  side_validb (zs "rec"%string) None ex_side = false.
+Proof. repeat split; vm_compute; reflexivity. Qed.
+(* NRPS/PKS: KS(trans-AT) ACP ACP LPG_synthase_C Beta_elim_lyase on one gene: a module using the
+   double carrier protein case is built, saved and regenerated identically *)
+Definition ex_dom (name : String.string) (s : Z) : hmm := HMM (zs name) s (s + 8) (1, 1024) (50, 1) [].
+Definition ex_doms : list hmm :=
+  [HMM (zs "PKS_KS"%string) 10 18 (1, 1024) (50, 1) [HMM (zs "Trans-AT-KS"%string) 10 18 (1, 8) (33, 1) []];
+   ex_dom "ACP"%string 30; ex_dom "ACP"%string 50; ex_dom "LPG_synthase_C"%string 70; ex_dom "Beta_elim_lyase"%string 90].
+Example C11_ex_nrps_codec :
+  exists r, nrps_cds_result (zs "g1"%string) ex_doms [] = Ok r /\
+            List.length (cr_modules r) = 1%nat /\
+            (nrps_from_json 4 (zs "rec"%string) [zs "g1"%string] (nrps_to_json 4 (zs "rec"%string) [(zs "g1"%string, r)])
+             = Ok (Some [(zs "g1"%string, r)])).
+Proof. eexists. split; [vm_compute; reflexivity|]. split; vm_compute; reflexivity. Qed.
+
+(* rule detection results with a linear and an origin-spanning protocluster (the latter saved while
+   in a record): regenerated up to the dropped run-specific qualifiers *)
+Example C11_ex_rule_results :
+  rdr_wf [zs "cds1"%string; zs "cds2"%string] W_rdr = true /\
+  rdr_strip W_rdr <> W_rdr /\
+  rdr_from_json 4 [zs "cds1"%string; zs "cds2"%string] (rdr_to_json 4 W_rdr) = Ok (Some (rdr_strip W_rdr)).
+Proof. exact rdr_wf_witness. Qed.
